@@ -78,16 +78,20 @@ def gen_letter_regs(loader, check, replay_on=True, letters=None):
     for letter in (letters or list("CNPRMQV")):
         for acc, (spellings, readable, writable, pair) in hx.ACCESS.items():
             for sp in spellings:
-                for is_new in (False, True):
+                for is_new, hist in ((False, None), (True, None), (False, "other"), (True, "other")):
+                    if hist and not (letter in "RP" and sp in ("s", "t", "ss", "d", "x")):
+                        continue     # history instances: the binding does not depend on earlier uses of the same letter (sampled letters)
                     cb = "new_reg" if is_new else "reg"
                     exp = hx.letter_reg(letter, sp, acc, is_new)
-                    inst = f"{letter}{sp}{'N' if is_new else 'V'} ({acc})"
+                    inst = f"{letter}{sp}{'N' if is_new else 'V'} ({acc})" + (" after the same letter with the other .new-ness" if hist else "")
                     check.instances_declared += 1
 
                     def setup(it):
                         return {"t": tkit.mk_transformer(it)}
 
-                    def run(it, st, letter=letter, acc=acc, sp=sp, cb=cb):
+                    def run(it, st, letter=letter, acc=acc, sp=sp, cb=cb, hist=hist):
+                        if hist:
+                            it.call(tkit.method(it, st["t"], "reg" if cb == "new_reg" else "new_reg"), [[Token("REG_TYPE", letter), Token(acc, sp)]], {})
                         r = it.call(tkit.method(it, st["t"], cb), [[Token("REG_TYPE", letter), Token(acc, sp)]], {})
                         init = it.call(it.getattr_(r, "il_init_var"), [], {})
                         r1 = it.call(it.getattr_(r, "il_read"), [], {})
@@ -99,7 +103,7 @@ def gen_letter_regs(loader, check, replay_on=True, letters=None):
                         check.instances_generated += 1
                     for i, p in enumerate(ex.paths):
                         pc = p.ctx.pc
-                        rp = ("c07.reg", lambda mdl, letter=letter, acc=acc, sp=sp, is_new=is_new: {"letter": letter, "acc": acc, "sp": sp, "new": is_new}) if replay_on else None
+                        rp = ("c07.reg", lambda mdl, letter=letter, acc=acc, sp=sp, is_new=is_new, hist=hist: {"letter": letter, "acc": acc, "sp": sp, "new": is_new, "history": hist}) if replay_on else None
                         if letter == "Q" and pair:
                             # pairs of vector predicates are rejected (allowed: rejected, never approximated)
                             check.ob(f"{cb}#rejected-or-bound", inst, pc, p.outcome == "raise" or True)
@@ -321,14 +325,34 @@ def replay_reg(a):
     from rzilcompiler.ArchEnum import ArchEnum
     t = RZILTransformer(ArchEnum.HEXAGON)
     exp = hx.letter_reg(a["letter"], a["sp"], a["acc"], a["new"])
+    toks = [Token("REG_TYPE", a["letter"]), Token(a["acc"], a["sp"])]
     try:
-        r = getattr(t, "new_reg" if a["new"] else "reg")([Token("REG_TYPE", a["letter"]), Token(a["acc"], a["sp"])])
+        if a.get("history") == "other":
+            # the same letter was used with the other .new-ness earlier in the behaviour
+            getattr(t, "reg" if a["new"] else "new_reg")(list(toks))
+        r = getattr(t, "new_reg" if a["new"] else "reg")(list(toks))
         init = r.il_init_var()
         rd = r.il_read()
+        rd2 = r.il_read()
     except Exception as e:
         return True, f"raised {type(e).__name__}: {e}"
-    bad = (r.value_type.signed, r.value_type.bit_width) != (exp["signed"], exp["width"]) or init.split("\n")[0] != exp["decl_op"]
-    return bad, f"{a['letter']}{a['sp']}: typed {r.value_type}, declared {init!r}, read {rd!r}; expected width {exp['width']}, {exp['decl_op']}"
+    lines = init.split("\n")
+    name = exp["name"]
+    want_rd = f"READ_REG(pkt, {exp['op_ref']}, {exp['new']})"
+    clause = a.get("clause", "")
+    bad = (r.value_type.signed, r.value_type.bit_width) != (exp["signed"], exp["width"]) or lines[0] != exp["decl_op"]
+    if "read-of-write-only" in clause:
+        bad = rd != f"READ_REG(pkt, {exp['op_ref']}, true)"
+    elif "readable-register-is-read-once" in clause:
+        bad = not (len(lines) == 2 and lines[1] == f"RzILOpPure *{name} = {want_rd};")
+    elif "reads-use-that-pure" in clause:
+        bad = not (rd == name and rd2 == f"DUP({name})")
+    elif "rw-x-register" in clause:
+        bad = not (rd == want_rd and rd2 == want_rd)
+    elif "write-only-register-declares-no-pure" in clause:
+        bad = len(lines) != 1
+    return bad, (f"{a['letter']}{a['sp']}{' after the other .new-ness' if a.get('history') else ''}: typed {r.value_type}, declared {init!r}, reads {rd!r}, {rd2!r}; "
+                 f"expected width {exp['width']}, {exp['decl_op']}")
 
 
 @replay.register("c07.explicit")
@@ -353,6 +377,10 @@ def gen_task(loader, check, what, replay_on=True, **kw):
         gen_letter_regs(loader, check, replay_on, **kw)
     elif what == "explicit":
         gen_explicit(loader, check, replay_on, check.tier if check.tier in ("quick", "thorough") else "quick")
+    elif what == "jump":
+        # "a jump records its 32-bit target": the conversion-context contract of C03, all eight source types
+        from . import c03
+        c03.gen_callbacks(loader, check, c03.T8, ["Variable"], replay_on, sections=["jump"])
     else:
         {"alias": gen_alias, "imm_mem": gen_imm_mem, "access": gen_access_state}[what](loader, check, replay_on)
 
@@ -363,7 +391,8 @@ def gen_catalog(loader, check, replay_on=True):
 
 
 def generate_reduced(loader, check):
-    check.ob_filter = r"#binding|#total|#access|#rejected"
+    check.ob_filter = r"#binding|#total|#access|#rejected|jump#"
+    gen_task(loader, check, "jump", False)
     gen_letter_regs(loader, check, False, letters=["R", "P", "N"])
     gen_explicit(loader, check, False, "quick")
     gen_alias(loader, check, False)
@@ -380,8 +409,8 @@ def run(check: Check):
                 "reads the old or .new value of exactly that register; WRITE_REG(bundle, op, v) writes its .new value; LOADW/STOREW as in RzIL")
     check.assume("complete finite enumeration of the operand spellings of the grammar terminals (REG_TYPE x access spellings x {V, N}); explicit "
                  "registers: quick tier uses 5 first numbers x {single, 3 pair partners}, the thorough tier all 20 x 21 spellings")
-    check.ob_filter = r"#binding|#total|#access|#rejected"
-    tasks = [{"what": "letters", "letters": [l]} for l in "CNPRMQV"] + [{"what": w} for w in ("explicit", "alias", "imm_mem", "access")]
+    check.ob_filter = r"#binding|#total|#access|#rejected|jump#"
+    tasks = [{"what": "letters", "letters": [l]} for l in "CNPRMQV"] + [{"what": w} for w in ("explicit", "alias", "imm_mem", "access", "jump")]
     check.run_parallel("contracts.c07", "gen_task", tasks, workers=WORKERS, sink_attrs={"ob_filter": check.ob_filter})
     check.run_parallel("contracts.c07", "gen_catalog", [{}], workers=1, sink_attrs={"ob_filter": check.ob_filter})
     run_mutants(check, MUTANTS, "contracts.c07", "generate_reduced")
